@@ -4,6 +4,14 @@ E4: the full window product of subscripts / slice bounds / loop ranges around th
 arrays.  In range => generation succeeds and the residual selects exactly those elements (reference:
 vf.ref.mast); out of range => generation (or building the residual function) raises.  Empty ranges
 (hi < lo) are legal Modelica; for them either an empty selection or an error is accepted.
+
+Loop-variable subscripts are not only the ascending x[i], x[i+1], x[i-1]: the subscript of a for-equation is any
+integer expression of the loop variable, and the anchored range test sees the whole *sequence* of evaluated
+indices.  So the alphabet has every affine form c0 + c1*i (c1 in -2, -1, 1, 2: descending sequences -- the
+reversal idiom x[n+1-i] --, sequences that step over 0) with the first evaluated index anywhere in the window, and
+the two non-monotone forms (i-m)*(i-m)+c / c-(i-m)*(i-m) whose extreme value sits in the middle of the sequence,
+on 1-D arrays, in each position of a 2-D subscript, and with the array size, the loop bound and the subscript
+written in terms of an Integer parameter.
 """
 import numpy as np
 
@@ -19,6 +27,160 @@ LEVEL = "exploration"
 def lit(i):
     """Integer literal as Modelica spells it (negative numbers are a unary minus)."""
     return N(i) if i >= 0 else ("un", "-", N(-i))
+
+
+I = V("i")
+
+
+def plus(e, k):
+    """e + k with the sign spelled as an operator (e, e + 2, e - 2)."""
+    return e if k == 0 else B("+" if k > 0 else "-", e, N(abs(k)))
+
+
+def affine(c1, c0, base=None):
+    """c0 + c1*i as it would be written: i + 2, 2 * i - 1, 4 - i, -i - 1, 5 - 2 * i.
+    base: an expression standing for part of the constant (a parameter), c0 is then relative to it."""
+    t = I if abs(c1) == 1 else B("*", N(abs(c1)), I)
+    if c1 > 0:
+        return plus(t, c0) if base is None else plus(B("+", t, base), c0)
+    if base is not None:
+        return B("-", plus(base, c0), t)
+    if c0 > 0:
+        return B("-", N(c0), t)
+    return plus(("un", "-", t), c0)
+
+
+def quad(sign, m, c):
+    """(i-m)*(i-m) + c (sign +1: minimum c at i = m) or c - (i-m)*(i-m) (sign -1: maximum c at i = m)."""
+    d = plus(I, -m)
+    sq = B("*", d, d)
+    return plus(sq, c) if sign > 0 else B("-", lit(c), sq)
+
+
+def ranges(n, lo_min=0):
+    """Non-empty loop ranges lo:hi inside the window.  lo >= 0: pymoca reads the start of a for range as a
+    literal (a unary minus or a parameter there is outside its supported subset and raises for every model)."""
+    return [(lo, hi) for lo in range(lo_min, n + 3) for hi in range(lo, n + 3)]
+
+
+def loop_subscripts(n, lo, hi, tier, affine_c1=(-2, -1, 1, 2), quads=True):
+    """(tag, subscript expression) for a loop lo:hi over a dimension of size n: every affine form whose first
+    evaluated index lies in the window [-1, n+2]; every quadratic form with its vertex m inside lo..hi and the
+    vertex value c in the window."""
+    out = []
+    for c1 in affine_c1:
+        for first in range(-1, n + 3):
+            out.append(("c1=%d" % c1, affine(c1, first - c1 * lo)))
+    if quads:
+        for sign, tag in ((1, "convex"), (-1, "concave")):
+            for m in range(lo, hi + 1):
+                for c in range(-1, n + 3):
+                    out.append((tag, quad(sign, m, c)))
+    return out
+
+
+def loop_programs(tier):
+    out = []
+    b = Decl("b")
+    rhs = B("*", V("b"), I)
+    sizes = (1, 2, 3) if tier == "quick" else (1, 2, 3, 4)
+    # 1-D, the subscripted array is the only indexed symbol of the loop (nothing else can reject the model)
+    for n in sizes:
+        x = Decl("x", dims=(n,))
+        for lo, hi in ranges(n):
+            for tag, sub in loop_subscripts(n, lo, hi, tier):
+                e = ("idx", "x", (sub,))
+                out.append(("loop-1d-rhs:" + tag, Model("M", [x, b], [("for", "i", N(lo), N(hi), [("eq", rhs, e)])])))
+                if tag.startswith("c1") or tier == "thorough":
+                    out.append(("loop-1d-lhs:" + tag, Model("M", [x, b], [("for", "i", N(lo), N(hi), [("eq", e, rhs)])])))
+    # 2-D: the loop variable in the row or in the column position, the other subscript a valid constant.
+    # Non-square shapes: the bound that applies is the one of the looped position.
+    shapes = ((2, 3), (3, 2)) if tier == "quick" else ((2, 3), (3, 2), (2, 2), (3, 3))
+    for r, c in shapes:
+        A = Decl("A", dims=(r, c))
+        for pos, n, other in ((0, r, c), (1, c, r)):
+            where = "row" if pos == 0 else "col"
+            for lo, hi in ranges(n):
+                for tag, sub in loop_subscripts(n, lo, hi, tier):
+                    ks = range(1, other + 1) if tag.startswith("c1") or tier == "thorough" else (other,)
+                    for k in ks:
+                        subs = (sub, N(k)) if pos == 0 else (N(k), sub)
+                        e = ("idx", "A", subs)
+                        out.append(("loop-2d-%s-rhs:%s" % (where, tag), Model("M", [A, b], [("for", "i", N(lo), N(hi), [("eq", rhs, e)])])))
+                        if tier == "thorough":
+                            out.append(("loop-2d-%s-lhs:%s" % (where, tag), Model("M", [A, b], [("for", "i", N(lo), N(hi), [("eq", e, rhs)])])))
+                # a vector of the matrix per iteration: A[f(i), :] / A[:, f(i)] under the shape-agnostic sum()
+                if tier == "thorough":
+                    for tag, sub in loop_subscripts(n, lo, hi, tier, quads=False):
+                        subs = (sub, ("all",)) if pos == 0 else (("all",), sub)
+                        e = ("call", "sum", (("idx", "A", subs),))
+                        out.append(("loop-2d-%s-vector:%s" % (where, tag), Model("M", [A, b], [("for", "i", N(lo), N(hi), [("eq", rhs, e)])])))
+    # size, upper loop bound and subscript in terms of an Integer parameter: Real x[n]; for i in lo:n+k; x[n+1-i]
+    for n in sizes:
+        for prefix in ("parameter",) if tier == "quick" else ("parameter", "constant"):
+            p = Decl("n", type="Integer", prefix=prefix, value=N(n))
+            x = Decl("x", dims=(V("n"),))
+            for lo, hi in ranges(n):
+                for c1 in (-2, -1, 1, 2):
+                    for first in range(-1, n + 3):
+                        c0 = first - c1 * lo
+                        e = ("idx", "x", (affine(c1, c0 - n, V("n")),))
+                        loop = ("for", "i", N(lo), plus(V("n"), hi - n), [("eq", rhs, e)])
+                        out.append(("loop-param:c1=%d" % c1, Model("M", [p, x, b], [loop])))
+                if tier == "thorough":
+                    for sign, tag in ((1, "convex"), (-1, "concave")):
+                        for m in range(lo, hi + 1):
+                            for c in range(-1, n + 3):
+                                # vertex and vertex value relative to n: (i - (n - 1)) * (i - (n - 1)) + n - 2
+                                d = B("-", I, plus(V("n"), m - n))
+                                sq = B("*", d, d)
+                                sub = B("+", sq, plus(V("n"), c - n)) if sign > 0 else B("-", plus(V("n"), c - n), sq)
+                                loop = ("for", "i", N(lo), plus(V("n"), hi - n), [("eq", rhs, ("idx", "x", (sub,)))])
+                                out.append(("loop-param:" + tag, Model("M", [p, x, b], [loop])))
+    return out
+
+
+class Spelled:
+    """A model whose text uses a spelling the reference AST has no node for; `eqs` is the same model written out
+    element by element (what the reference evaluates).  lenient: pymoca may also reject it (see step_programs)."""
+
+    def __init__(self, decls, body, eqs, lenient=False):
+        self.name, self.decls, self.eqs, self.init_eqs, self.funcs, self.lenient = "M", list(decls), list(eqs), [], [], lenient
+        self._text = "model M\n%sequation\n%send M;\n" % ("".join("  %s\n" % d.text() for d in decls), "".join("  %s\n" % l for l in body))
+
+    def text(self):
+        return self._text
+
+
+def step_programs(tier):
+    """x[lo:st:hi] and for i in lo:st:hi, st a positive literal: the elements lo, lo+st, ... <= hi.  The reference
+    model is the explicit element list.  A slice whose stop is beyond n but whose last element is not (1:2:4 on
+    x[3] = {1, 3}) is valid Modelica; pymoca's conservative rejection of it is accepted (lenient)."""
+    out = []
+    b, sv = Decl("b"), Decl("s")
+    steps = (1, 2) if tier == "quick" else (1, 2, 3)
+    for n in (1, 2, 3):
+        x = Decl("x", dims=(n,))
+        win = range(-1, n + 3)
+        for st in steps:
+            for lo in win:
+                for hi in win:
+                    els = list(range(lo, hi + 1, st))
+                    if not els:
+                        continue
+                    spell = "%d:%d:%d" % (lo, st, hi)
+                    lenient = hi > n >= els[-1] and lo >= 1
+                    arr = ("arr", tuple(("idx", "x", (lit(e),)) for e in els))
+                    out.append(("step-slice-sum", Spelled([x, sv], ["s = sum(x[%s]);" % spell], [("eq", V("s"), ("call", "sum", (arr,)))], lenient)))
+                    z = Decl("z", dims=(len(els),))
+                    out.append(("step-slice-rhs", Spelled([x, z], ["z = x[%s];" % spell], [("eq", V("z"), arr)], lenient)))
+                    if lo < 0:  # (the start of a for range is a non-negative literal)
+                        continue
+                    for tag, f, ftext in (("x[i]", lambda i: i, "i"), ("x[n+1-i]", lambda i: n + 1 - i, "%d - i" % (n + 1))):
+                        body = ["for i in %s loop" % spell, "  b * i = x[%s];" % ftext, "end for;"]
+                        eqs = [("eq", B("*", V("b"), N(i)), ("idx", "x", (lit(f(i)),))) for i in els]
+                        out.append(("step-loop-" + tag, Spelled([x, b], body, eqs)))
+    return out
 
 
 def programs(tier):
@@ -72,7 +234,15 @@ def programs(tier):
     for i in (0, 1, 2):
         out.append(("subscript-on-scalar", Model("M", [Decl("k"), a], [("eq", V("a"), ("idx", "k", (lit(i),)))])))
     out.append(("too-many-subscripts", Model("M", [Decl("x", dims=(2,)), a], [("eq", V("a"), ("idx", "x", (N(1), N(1))))])))
-    return out
+    out += loop_programs(tier)
+    out += step_programs(tier)
+    seen, uniq = set(), []
+    for fam, m in out:  # (x[i] = b*i of the first loop family is also the c1=1, c0=0 member of loop-1d-lhs)
+        t = m.text()
+        if t not in seen:
+            seen.add(t)
+            uniq.append((fam, m))
+    return uniq
 
 
 def classify(model, env):
@@ -84,13 +254,15 @@ def classify(model, env):
     return "in-range", segs
 
 
-def has_empty_range(model):
+def has_empty_range(model, env=None):
+    env = env or {}
+
     def walk(n):
         if isinstance(n, tuple):
             if n and n[0] in ("slice", "for"):
                 lo, hi = (n[1], n[2]) if n[0] == "slice" else (n[2], n[3])
                 try:
-                    if M.evn(hi, {}) < M.evn(lo, {}):
+                    if M.evn(hi, env) < M.evn(lo, env):
                         return True
                 except Exception:
                     pass
@@ -102,12 +274,64 @@ def has_empty_range(model):
     return walk(model.eqs)
 
 
+def _mentions(n, var):
+    if isinstance(n, tuple):
+        return n == ("var", var) or any(_mentions(x, var) for x in n)
+    return False
+
+
+def _idx_nodes(n):
+    if isinstance(n, (tuple, list)):
+        if isinstance(n, tuple) and n and n[0] == "idx":
+            yield n
+        for x in n:
+            yield from _idx_nodes(x)
+
+
+def loop_profile(model, env):
+    """Where the offending indices sit in the sequence a loop-variable subscript runs through (coverage only):
+    None (no loop subscript) | 'valid' | 'high' (some index > n: CasADi itself would object) | 'low:first' |
+    'low:last-only' (first evaluated index valid, the sequence ends below 1) | 'low:interior-only' (both ends
+    valid) | 'low:first+last'.  The 'low' classes are the ones only pymoca's own test can reject."""
+    seqs = []
+    for e in model.eqs:
+        if e[0] != "for":
+            continue
+        try:
+            lo, hi = int(M.evn(e[2], env)), int(M.evn(e[3], env))
+        except Exception:
+            continue
+        if hi < lo:
+            continue
+        for node in _idx_nodes(e[4]):
+            shape = np.shape(env[node[1]])
+            for d, sub in enumerate(node[2]):
+                if sub[0] in ("all", "slice") or d >= len(shape) or not _mentions(sub, e[1]):
+                    continue
+                seqs.append(([int(M.evn(sub, dict(env, **{e[1]: i}))) for i in range(lo, hi + 1)], shape[d]))
+    if not seqs:
+        return None
+    if any(v > n for vals, n in seqs for v in vals):
+        return "high"
+    out = "valid"
+    for vals, n in seqs:
+        low = [k for k, v in enumerate(vals) if v < 1]
+        if not low:
+            continue
+        first, last = 0 in low, len(vals) - 1 in low
+        if len(vals) == 1 or (first and not last):
+            return "low:first"
+        out = "low:first+last" if first else "low:last-only" if last else "low:interior-only"
+    return out
+
+
 def check(job):
     fam, model, seed = job
     text = model.text()
     env = c11.values_for(model, 0, seed)
     kind, info = classify(model, env)
-    empty = has_empty_range(model)
+    prof = loop_profile(model, env)
+    empty = has_empty_range(model, env)
     try:
         cm = cas.generate(text, model.name)
         cm.dae_residual_function
@@ -118,7 +342,7 @@ def check(job):
     cls = kind if not empty else "empty-range"
     if empty:
         # legal Modelica; either an empty selection or an error is accepted (DESIGN.md C23): not judged
-        return {"cls": cls, "viol": viol, "fam": fam}
+        return {"cls": cls, "viol": viol, "fam": fam, "prof": None}
     if kind == "out-of-range":
         if err is None:
             try:
@@ -127,7 +351,9 @@ def check(job):
                 got = "evaluation raises %r" % e
             viol.append(("out-of-range-accepted:" + fam, "%s, but the model generates; residual %r\n%s" % (info, got, text), {"text": text}))
     else:
-        if err is not None:
+        if err is not None and getattr(model, "lenient", False):
+            cls = "in-range, rejection tolerated"
+        elif err is not None:
             viol.append(("in-range-rejected:%s:%s" % (fam, common.exc_sig(err)), "all subscripts are in range but generation raises %r\n%s" % (err, text), {"text": text}))
         else:
             for p in range(3):
@@ -138,17 +364,19 @@ def check(job):
                 if not M.same_multiset(got, want):
                     viol.append(("wrong-element:" + fam, "residual %r, the subscripted elements give %r\n%s" % (got, want.tolist(), text), {"text": text}))
                     break
-    return {"cls": cls, "viol": viol, "fam": fam}
+    return {"cls": cls, "viol": viol, "fam": fam, "prof": prof}
 
 
 def run(ctx):
     progs = programs(ctx.tier)
     with common.Pool() as pool:
         res = pool.map(check, [(f, m, ctx.seed) for f, m in progs], chunksize=4)
-    per, cls = {}, {}
+    per, cls, prof = {}, {}, {}
     for (fam, m), r in zip(progs, res):
         per[fam] = per.get(fam, 0) + 1
         cls[r["cls"]] = cls.get(r["cls"], 0) + 1
+        if r["prof"] is not None:
+            prof[r["prof"]] = prof.get(r["prof"], 0) + 1
         for sig, msg, case in r["viol"]:
             ctx.violation(sig, msg, case)
     for k in (0, len(progs) // 2, len(progs) - 1):
@@ -159,15 +387,33 @@ def run(ctx):
             "distinct_nontrivial": cls.get("out-of-range", 0),
             "by_reference_class": cls,
             "per_family": per,
+            "loop_subscript_sequences": prof,
             "exhaustive": True,
             "rule": "full window product: 1-D arrays of size 1..3 with every subscript in [-1, n+2] on either side, every slice "
             "lo:hi over the window (as z = x[lo:hi], x[lo:hi] = z and the shape-agnostic s = sum(x[lo:hi])), every for-loop "
             "lo:hi over the window with subscripts x[i], x[i+1], x[i-1]; 2x2 and 2x3 matrices with every (i, j), (i, :) and "
-            "(:, j) over the window (thorough: also A[i, lo:hi]); subscripts on a scalar. Non-trivial = the reference says "
-            "some subscript is out of range (the case the property is about).",
+            "(:, j) over the window (thorough: also A[i, lo:hi]); subscripts on a scalar. Loop-variable subscripts f(i): for "
+            "every non-empty loop lo:hi with 0 <= lo <= hi <= n+2 every affine f = c0 + c1*i, c1 in {-2,-1,1,2}, with the first "
+            "evaluated index anywhere in [-1, n+2], and every (i-m)*(i-m)+c and c-(i-m)*(i-m) with the vertex m in lo..hi and "
+            "c in [-1, n+2]; as b*i = x[f] and x[f] = b*i on x[n], n = 1..3 (thorough: 1..4), as the row and as the column "
+            "subscript of A[2,3] and A[3,2] (thorough: also 2x2, 3x3, both sides, and A[f,:] / A[:,f] under sum) with the "
+            "other subscript every valid constant (quick: the last one for the quadratic forms), and with size, upper loop "
+            "bound and subscript spelled relative to an Integer parameter (Real x[n]; for i in lo:n+k; x[n+k'-i]; thorough: "
+            "also constant, also the quadratic forms). Ranges with a step: x[lo:st:hi] (under sum and as z = ...) with lo, hi "
+            "over the window and for i in lo:st:hi (lo >= 0) with x[i] and x[n+1-i], st in {1,2} (thorough: 3), the reference "
+            "being the explicit element list lo, lo+st, ... <= hi. Non-trivial = the reference says some subscript is out of range (the "
+            "case the property is about); loop_subscript_sequences says where in the evaluated sequence the offending index "
+            "sits (the low:* classes are rejected by nothing but pymoca's own test).",
         }
     )
     ctx.assumptions.append("rejection may come from generate() or from building the residual function; empty ranges are not judged")
+    ctx.assumptions.append(
+        "the start of a for range is a non-negative literal and a step is a positive literal: pymoca reads both with .value (a "
+        "unary minus or a parameter there raises for every model; negative steps are outside its supported subset); a "
+        "stepped slice whose stop lies beyond n while its last element does not (x[1:2:4] of x[3]) may be rejected; "
+        "subscripts taken from an Integer array (x[k[i]]), if-expressions and div/mod in a subscript are rejected by pymoca "
+        "for every model and are not in the alphabet"
+    )
 
 
 def replay(case):
